@@ -4,21 +4,24 @@
    Three things are related:
    * [rule_sem]   (model/RulesSpec.v): what the declaration SAYS, a declarative Prop
                   written from the rule vocabulary of schema.proto; it calls no
-                  function of the other two;
+                  function of the other two. The meaning of a pattern is its
+                  parameter [pat_sem];
    * [write_prop] (model/RulesWrite.v): what fields.go emits;
    * [validate_sem] (model/Validate.v): what protovalidate-go returns — accept,
                   reject, or an ERROR (compilation error of the message type / runtime
                   error of a rule program), which is not a verdict. *)
 From Coq Require Import String List NArith ZArith Bool.
 From J5V.lib Require Import Outcome.
-From J5V.model Require Import RulesDecl RulesWrite RulesSpec Validate RulesSpecDec.
+From J5V.model Require Import RulesDecl RulesWrite RulesSpec Validate RulesSpecDec Regex.
 From J5V.gen Require Id62Gen RulesGen.
-From J5V.proofs Require Import RulesProofs RulesGenProofs.
+From J5V.proofs Require Import RulesProofs RulesGenProofs RegexProofs RulesRegexProofs.
 Import ListNotations.
 Local Open Scope N_scope.
 
-(* The property at full strength: for EVERY regular-expression engine that
-   compiles the published id62 pattern and decides it as 22 alphanumerics, every
+(* The property at full strength: for EVERY regular-expression engine (compiler
+   re_ok, matcher re_match) and meaning of patterns pat_sem such that the matcher
+   decides the meaning and the published id62 pattern compiles and means 22
+   alphanumerics ([engine_ok]), every
    enum whose value names are pairwise different (protobuf requires it), every
    declaration the compiler accepts (entity.primaryKey only where schema.proto
    gives it a meaning: on a singular key property) and every value of the
@@ -39,11 +42,11 @@ Print Assumptions C12_full_refuted.
    one item is enough. The declared rules hold (a single item is unique), the
    validator returns a runtime error. For every engine. *)
 Theorem C12_unique_messages_refuted :
-  forall re_ok re_match, exists o,
-    write_prop (EE [] []) 0 w_unique_obj = Ok o /\
+  forall re_ok re_match pat_sem, exists o,
+    write_prop (EE [] None []) 0 w_unique_obj = Ok o /\
     fvalue_typed w_unique_obj (FMany [VMsg 0]) = true /\
-    rule_sem re_match (EE [] []) w_unique_obj (FMany [VMsg 0]) /\
-    validate_sem re_ok re_match (defined_numbers (EE [] [])) o (FMany [VMsg 0]) = VError ERuntime.
+    rule_sem pat_sem (EE [] None []) w_unique_obj (FMany [VMsg 0]) /\
+    validate_sem re_ok re_match (defined_numbers (EE [] None [])) o (FMany [VMsg 0]) = VError ERuntime.
 Proof. exact c12_unique_messages_refuted. Qed.
 Print Assumptions C12_unique_messages_refuted.
 
@@ -79,15 +82,15 @@ Print Assumptions C12_partial.
    value on which the validator returns an error. So the two refutations above
    are the only ones on the model. *)
 Theorem C12_evaluable_exact :
-  forall re_ok re_match, engine_ok re_ok re_match ->
+  forall re_ok re_match pat_sem, engine_ok re_ok re_match pat_sem ->
   forall env idx d o,
     wf_env env = true -> key_placement_ok d = true -> evaluable re_ok d = false ->
     write_prop env idx d = Ok o ->
     exists fv k, fvalue_typed d fv = true /\
       validate_sem re_ok re_match (defined_numbers env) o fv = VError k.
 Proof.
-  intros re_ok re_match He.
-  exact (c12_not_evaluable re_ok re_match (proj1 He) (engine_id62_bool re_ok re_match He)).
+  intros re_ok re_match pat_sem He.
+  exact (c12_not_evaluable re_ok re_match (proj1 (proj2 He)) (engine_id62_bool re_ok re_match pat_sem He)).
 Qed.
 Print Assumptions C12_evaluable_exact.
 
@@ -95,7 +98,7 @@ Print Assumptions C12_evaluable_exact.
    decision procedure of the declared rules ([rule_semb], proved to decide
    [rule_sem] in C12_spec_decided) *)
 Theorem C12_verdict :
-  forall re_ok re_match, engine_ok re_ok re_match ->
+  forall re_ok re_match pat_sem, engine_ok re_ok re_match pat_sem ->
   forall env idx d o fv,
     wf_env env = true -> key_placement_ok d = true ->
     write_prop env idx d = Ok o -> fvalue_typed d fv = true ->
@@ -104,38 +107,86 @@ Theorem C12_verdict :
     else if unique_on_messages d && nonempty_list fv then VError ERuntime
     else of_bool (rule_semb re_match env d fv).
 Proof.
-  intros re_ok re_match He.
-  exact (c12_verdict re_ok re_match (proj1 He) (engine_id62_bool re_ok re_match He)).
+  intros re_ok re_match pat_sem He.
+  exact (c12_verdict re_ok re_match (proj1 (proj2 He)) (engine_id62_bool re_ok re_match pat_sem He)).
 Qed.
 Print Assumptions C12_verdict.
 
-Theorem C12_spec_decided : forall re_match env d fv,
-  rule_semb re_match env d fv = true <-> rule_sem re_match env d fv.
+Theorem C12_spec_decided : forall re_match pat_sem,
+  (forall p s, re_match p s = true <-> pat_sem p s) ->
+  forall env d fv, rule_semb re_match env d fv = true <-> rule_sem pat_sem env d fv.
 Proof. exact rule_semb_spec. Qed.
 Print Assumptions C12_spec_decided.
 
 (* lifted to whole messages: the message is accepted iff every property's rules hold *)
 Theorem C12_message :
-  forall re_ok re_match, engine_ok re_ok re_match ->
+  forall re_ok re_match pat_sem, engine_ok re_ok re_match pat_sem ->
   forall env ds idx os fvs,
     wf_env env = true ->
     forallb key_placement_ok ds = true ->
     forallb (evaluable re_ok) ds = true ->
     write_props_from env idx ds = Ok os ->
     typed_obj ds fvs = true ->
-    (validate_obj re_ok re_match (defined_numbers env) os fvs = VAccept <-> rule_obj re_match env ds fvs) /\
-    (validate_obj re_ok re_match (defined_numbers env) os fvs = VReject <-> ~ rule_obj re_match env ds fvs).
+    (validate_obj re_ok re_match (defined_numbers env) os fvs = VAccept <-> rule_obj pat_sem env ds fvs) /\
+    (validate_obj re_ok re_match (defined_numbers env) os fvs = VReject <-> ~ rule_obj pat_sem env ds fvs).
 Proof.
-  intros re_ok re_match He env ds.
-  exact (c12_object re_ok re_match (proj1 He) (engine_id62_bool re_ok re_match He) env ds).
+  intros re_ok re_match pat_sem He env ds.
+  exact (c12_object re_ok re_match pat_sem (proj1 He) (proj1 (proj2 He)) (engine_id62_bool re_ok re_match pat_sem He) env ds).
 Qed.
 Print Assumptions C12_message.
 
-(* the engine hypothesis is satisfiable: C20's class-count matcher compiles the
-   published pattern and decides it as "22 characters of 0-9 A-Z a-z" *)
-Theorem C12_engine_exists : engine_ok re_class_ok re_class_count.
-Proof. exact class_count_engine. Qed.
+(* how "required" reads on a scalar declared without [optional] (the reading fixed in
+   RulesSpec.v, made explicit): the compiled field has no presence of its own, the
+   message in which it holds its default value is the message in which it is unset,
+   and the validator rejects it — also when a client sent an explicit 0 / "" / false *)
+Theorem C12_required_scalar_rejects_default :
+  forall re_ok re_match pat_sem, engine_ok re_ok re_match pat_sem ->
+  forall env idx name t desc o v,
+    wf_env env = true ->
+    fty_patterns_ok re_ok t = true ->
+    is_msg_ty t = false ->
+    write_prop env idx (P name true false (PSingle t) desc) = Ok o ->
+    value_typed t v = true -> is_zero v = true ->
+    validate_sem re_ok re_match (defined_numbers env) o (FOne v) = VReject.
+Proof. exact c12_required_default. Qed.
+Print Assumptions C12_required_scalar_rejects_default.
+
+(* ---- a concrete engine: the RE2 fragment of model/Regex.v ---------------------------
+   [pattern_sem p s]: p parses (Regex.re_parse) to an expression r of the fragment and
+   r finds a match in s by the DECLARATIVE relation Regex.search (inductive matching
+   relation with begin / end-of-text context); the validator's side is the derivative
+   matcher. The engine laws hold for it, without hypotheses: *)
+Theorem C12_engine_exists : engine_ok re_frag_ok re_frag_match pattern_sem.
+Proof. exact frag_engine. Qed.
 Print Assumptions C12_engine_exists.
+
+(* the derivative matcher decides the declarative matching relation, for every
+   expression and every text *)
+Theorem C12_regex_matcher_correct : forall r text, searchb r text = true <-> search r text.
+Proof. exact searchb_spec. Qed.
+Print Assumptions C12_regex_matcher_correct.
+
+(* the published id62 pattern, parsed and read declaratively, means 22 alphanumerics *)
+Theorem C12_id62_pattern_meaning :
+  re_parse Id62Gen.pattern_string = Parsed id62_re /\ forall s, search id62_re s <-> id62_text s.
+Proof. exact (conj parse_id62 id62_re_sem). Qed.
+Print Assumptions C12_id62_pattern_meaning.
+
+(* C12 with that engine, closed: for declarations whose patterns lie in the modelled
+   fragment (outside it the parser says "not modelled" and nothing is claimed) *)
+Theorem C12_concrete : forall env idx d o fv,
+  wf_env env = true -> key_placement_ok d = true ->
+  patterns_in_fragment d = true -> evaluable re_frag_ok d = true ->
+  write_prop env idx d = Ok o -> fvalue_typed d fv = true ->
+  (validate_sem re_frag_ok re_frag_match (defined_numbers env) o fv = VAccept <-> rule_sem pattern_sem env d fv) /\
+  (validate_sem re_frag_ok re_frag_match (defined_numbers env) o fv = VReject <-> ~ rule_sem pattern_sem env d fv).
+Proof. exact c12_concrete. Qed.
+Print Assumptions C12_concrete.
+
+(* C20's class-count matcher is another engine satisfying the laws *)
+Theorem C12_class_count_engine : engine_ok re_class_ok re_class_count (fun p s => re_class_count p s = true).
+Proof. exact class_count_engine. Qed.
+Print Assumptions C12_class_count_engine.
 
 (* what makes the theorem true for integers: the compiler rejects the two kinds
    of integer rules whose compiled form would mean something else (both were
@@ -201,46 +252,71 @@ Theorem C12_enum_names_to_numbers : forall env names zs n,
 Proof. exact enum_numbers_sem. Qed.
 Print Assumptions C12_enum_names_to_numbers.
 
-(* the writer model's integer switch is the one in fields.go (regenerated table) *)
+(* the writer model is the code of fields.go: every regenerated fact is compared with
+   what the MODEL FUNCTION does on probe inputs (write_int_rules, bound_ok, wrap_array,
+   wrap_map, write_field) — an edit of a Go branch breaks one of these at build time *)
 Theorem C12_writer_table_agrees :
+  (* integer rules: per format and bound, the rule field each branch assigns *)
   forallb (fun a => match a with
                     | (k, is_max, _, _, _) =>
                         forallb (fun flag => rfield_eqb (arm_rule a flag) (model_rule k is_max flag)) flag_values
                     end) RulesGen.writer_int_arms = true
-  /\ RulesGen.writer_array_cond = RulesGen.ArrItemsOrRules
-  /\ RulesGen.writer_id62_published = true.
-Proof. exact (conj writer_int_arms_agree (conj writer_array_cond_agree writer_id62_agree)). Qed.
+  (* checkIntegerBounds: ranges per format and the three checks *)
+  /\ forallb range_ok RulesGen.writer_int_ranges = true
+  /\ RulesGen.writer_checks_minimum_range = model_checks_minimum_range
+  /\ RulesGen.writer_checks_maximum_range = model_checks_maximum_range
+  /\ RulesGen.writer_checks_order = model_checks_order
+  (* when repeated / map rules are emitted *)
+  /\ RulesGen.writer_array_cond = model_array_cond
+  /\ RulesGen.writer_map_cond = model_map_cond
+  (* key:id62 compiles to the published pattern *)
+  /\ RulesGen.writer_id62_published = model_id62_published
+  (* float rules refused; object / oneof / timestamp rules reduced to nothing *)
+  /\ RulesGen.writer_float_rules_refused = model_float_rules_refused
+  /\ RulesGen.writer_timestamp_rules_empty = model_timestamp_rules_empty.
+Proof.
+  exact (conj writer_int_arms_agree
+        (conj (proj1 writer_int_ranges_agree)
+        (conj (proj1 (proj2 writer_int_checks_agree))
+        (conj (proj1 (proj2 (proj2 writer_int_checks_agree)))
+        (conj (proj2 (proj2 (proj2 writer_int_checks_agree)))
+        (conj writer_array_cond_agree
+        (conj writer_map_cond_agree
+        (conj writer_id62_agree
+        (conj (proj1 writer_reduced_rules_agree)
+              (proj2 (proj2 (proj2 writer_reduced_rules_agree)))))))))))).
+Qed.
 Print Assumptions C12_writer_table_agrees.
 
 (* non-vacuity: an evaluable declaration with every kind of rule compiles, and
    the two sides agree on an accepted and on rejected values; a multi-byte
    string is measured in code points *)
 Example C12_example :
-  let env := EE [67;95] [[82];[71]] in
+  let env := EE [67;95] None [[82];[71]] in
   let d := P [97] true false
              (PArray (Some (AR (Some 1%N) (Some 3%N) (Some true))) None
                 (TInt U32 (Some (IR (Some 1%Z) (Some 10%Z) (Some false) (Some true))) None)) [] in
   let ds := P [98] false false (PSingle (TStr None (Some (SR None None (Some 2%N))) None)) [] in
-  wf_env env = true /\ key_placement_ok d = true /\ evaluable re_class_ok d = true /\
+  wf_env env = true /\ key_placement_ok d = true /\ evaluable re_frag_ok d = true /\
   exists o, write_prop env 0%N d = Ok o /\
     fvalue_typed d (FMany [VInt 1%Z; VInt 9%Z]) = true /\
-    validate_sem re_class_ok re_class_count (defined_numbers env) o (FMany [VInt 1%Z; VInt 9%Z]) = VAccept /\
-    rule_sem re_class_count env d (FMany [VInt 1%Z; VInt 9%Z]) /\
-    validate_sem re_class_ok re_class_count (defined_numbers env) o (FMany [VInt 1%Z; VInt 10%Z]) = VReject /\
-    ~ rule_sem re_class_count env d (FMany [VInt 1%Z; VInt 10%Z]) /\
-    validate_sem re_class_ok re_class_count (defined_numbers env) o (FMany [VInt 2%Z; VInt 2%Z]) = VReject /\
-    validate_sem re_class_ok re_class_count (defined_numbers env) o (FMany []) = VReject /\
+    validate_sem re_frag_ok re_frag_match (defined_numbers env) o (FMany [VInt 1%Z; VInt 9%Z]) = VAccept /\
+    rule_sem pattern_sem env d (FMany [VInt 1%Z; VInt 9%Z]) /\
+    validate_sem re_frag_ok re_frag_match (defined_numbers env) o (FMany [VInt 1%Z; VInt 10%Z]) = VReject /\
+    ~ rule_sem pattern_sem env d (FMany [VInt 1%Z; VInt 10%Z]) /\
+    validate_sem re_frag_ok re_frag_match (defined_numbers env) o (FMany [VInt 2%Z; VInt 2%Z]) = VReject /\
+    validate_sem re_frag_ok re_frag_match (defined_numbers env) o (FMany []) = VReject /\
   exists os, write_prop env 1%N ds = Ok os /\
     (* "é日" : 2 code points, 5 bytes *)
-    validate_sem re_class_ok re_class_count (defined_numbers env) os (FOne (VStr [233; 26085])) = VAccept /\
-    validate_sem re_class_ok re_class_count (defined_numbers env) os (FOne (VStr [97; 98; 99])) = VReject.
+    validate_sem re_frag_ok re_frag_match (defined_numbers env) os (FOne (VStr [233; 26085])) = VAccept /\
+    validate_sem re_frag_ok re_frag_match (defined_numbers env) os (FOne (VStr [97; 98; 99])) = VReject.
 Proof.
   cbv zeta. split; [vm_compute; reflexivity|]. split; [reflexivity|]. split; [vm_compute; reflexivity|].
   eexists. split; [vm_compute; reflexivity|].
   split; [reflexivity|]. split; [vm_compute; reflexivity|].
-  split; [apply (rule_semb_spec re_class_count); vm_compute; reflexivity|].
+  split; [apply (rule_semb_spec re_frag_match pattern_sem frag_dec); vm_compute; reflexivity|].
   split; [vm_compute; reflexivity|].
-  split; [intro H; apply (rule_semb_spec re_class_count) in H; vm_compute in H; discriminate|].
+  split; [intro H; apply (rule_semb_spec re_frag_match pattern_sem frag_dec) in H; vm_compute in H; discriminate|].
   split; [vm_compute; reflexivity|]. split; [vm_compute; reflexivity|].
   eexists. split; [vm_compute; reflexivity|]. split; vm_compute; reflexivity.
 Qed.
